@@ -53,8 +53,8 @@ def plan(tier):
     if tier == "thorough":
         return {"runs": 60000, "slice": 40, "budget_s": 2400,
                 "slice_timeout_s": 1200}
-    return {"runs": 480, "slice": 12, "budget_s": 150,
-            "slice_timeout_s": 400}
+    return {"runs": 480, "slice": 8, "budget_s": 150,
+            "slice_timeout_s": 900}
 
 
 def parse(prog):
